@@ -65,7 +65,7 @@ def build_case(rng, everything=False, flat=False):
             t.files["top.cmake"] = cmake_text("top.cmake")
         c.tree = t
     else:
-        c.tree = gen_tree(rng, max_depth=rng.choice([1, 2, 3, 4]))
+        c.tree = gen_tree(rng, max_depth=rng.choice([1, 2, 3, 4]), case_twins=rng.random() < 0.3)
     c.recursive = rng.random() < 0.8
     c.auto = rng.random() < 0.6
     c.everything = everything
